@@ -21,6 +21,7 @@ fn item_src(it: &Value, derive: &str) -> String {
         "empty" => format!("{}()", n),
         "shapes" => if v { format!("{}(named, unit)", n) } else { format!("{}(struct_named, enum_unit)", n) },
         "badshape" => if v { format!("{}(named, bogus)", n) } else { format!("{}(struct_named, struct_bogus)", n) },
+        "anybad" => if v { format!("{}(any, bogus)", n) } else { format!("{}(any, struct_bogus)", n) },
         "dblprefix" => if v { format!("{}(named_named)", n) } else { format!("{}(struct_struct_named)", n) },
         f => panic!("form {}", f),
     }
@@ -59,6 +60,7 @@ pub fn render(c: &Value, split: bool) -> String {
     let body = match c["shape"].as_str().unwrap() {
         "named" => format!("struct Demo {{\n{}\nf1: u8,\n{}\n}}", f1, if c["f2present"] == true { format!("{}\nf2: u8,", f2) } else { String::new() }),
         "named_attrs" => format!("struct Demo {{\n{}\nf1: u8,\nattrs: Vec<syn::Attribute>,\n}}", f1),
+        "named_attrs_with" => format!("struct Demo {{\n{}\nf1: u8,\n#[darling(with = a::b)]\nattrs: Vec<syn::Attribute>,\n}}", f1),
         "unit" => "struct Demo;".to_string(),
         "newtype" => "struct Demo(u8);".to_string(),
         "tuple2" => "struct Demo(u8, u16);".to_string(),
@@ -236,10 +238,10 @@ const FIELD_ALPHA: [(&str, &str); 23] = [
 const VARIANT_ALPHA: [(&str, &str); 12] = [
     ("rename", "str"), ("rename", "true"), ("skip", "word"), ("skip", "false"), ("word", "word"), ("word", "false"), ("word", "str"), ("bogus", "str"), ("@bare", ""), ("@nv", ""), ("@lit", ""), ("@junk", ""),
 ];
-const CONT_ALPHA: [(&str, &str); 25] = [
+const CONT_ALPHA: [(&str, &str); 28] = [
     ("default", "word"), ("default", "words"), ("rename_all", "rule"), ("rename_all", "str"), ("map", "str"), ("and_then", "str"), ("allow_unknown_fields", "word"),
     ("allow_unknown_fields", "str"), ("attributes", "words"), ("attributes", "str"), ("forward_attrs", "word"), ("forward_attrs", "words"), ("from_ident", "word"),
-    ("from_word", "path"), ("from_word", "str"), ("from_none", "closure"), ("supports", "shapes"), ("supports", "badshape"), ("supports", "dblprefix"), ("bogus", "words"),
+    ("from_word", "path"), ("from_word", "str"), ("from_none", "closure"), ("supports", "shapes"), ("supports", "badshape"), ("supports", "dblprefix"), ("supports", "anybad"), ("::map", "str"), ("::default", "word"), ("bogus", "words"),
     ("bogus", "word"), ("@bare", ""), ("@nv", ""), ("@lit", ""), ("@junk", ""),
 ];
 
@@ -255,13 +257,13 @@ fn draw(rng: &mut Rng, alpha: &[(&str, &str)], max: usize, clean_bias: bool) -> 
 
 pub fn record(rng: &mut Rng, n: usize) -> Vec<Value> {
     const DERIVES: [&str; 6] = ["FromMeta", "FromDeriveInput", "FromField", "FromVariant", "FromTypeParam", "FromAttributes"];
-    const SHAPES: [&str; 12] = ["named", "named", "named", "named_attrs", "enum", "enum", "unit", "newtype", "tuple2", "enum0", "tuple0", "named0"];
+    const SHAPES: [&str; 13] = ["named", "named", "named", "named_attrs", "named_attrs_with", "enum", "enum", "unit", "newtype", "tuple2", "enum0", "tuple0", "named0"];
     let mut out = vec![];
     for _ in 0..n {
         let derive = *rng.pick(&DERIVES);
         let shape = if rng.chance(1, 40) { "union" } else { *rng.pick(&SHAPES) };
         let cont = if rng.chance(1, 3) { vec![] } else { draw(rng, &CONT_ALPHA, 6, true) };
-        let fields = shape == "named" || shape == "named_attrs";
+        let fields = shape == "named" || shape.starts_with("named_attrs");
         let f1 = if fields { draw(rng, &FIELD_ALPHA, 5, true) } else { vec![] };
         let f2 = if shape == "named" { draw(rng, &FIELD_ALPHA, 5, true) } else { vec![] };
         let v1 = if shape == "enum" { draw(rng, &VARIANT_ALPHA, 4, true) } else { vec![] };
